@@ -10,6 +10,8 @@ import (
 	"bytes"
 	"fmt"
 	"strings"
+
+	"github.com/mit-pdos/go-journal/common"
 )
 
 type Profile struct {
@@ -40,6 +42,7 @@ type Profile struct {
 	Own        []string // violation classes of the property being checked: only these (and a diverged reference) end a run
 	InodeExhaust bool // fill the inode table first (thorough tier of C08/C09)
 	DeleteAll  bool // C05: delete everything at the end; only the root may remain
+	StallInstaller bool // the journal's installer is held back for stretches of a few requests (committed data is served from the memory log)
 	JournalReject bool // now and then a request whose transaction the journal rejects as too large (needs > 521 free blocks)
 	ManyBigFrees bool // C05: more big frees in flight at once than any plausible cap on background threads
 	HighBlocks bool // first push the next-fit block allocator beyond block 32768 (second bitmap block); needs DiskBlocks > 34000
@@ -887,6 +890,14 @@ func runSeq(p Profile, seed uint64, cas int) *SeqRes {
 			op = s.genChurn()
 		} else {
 			op = s.genOp()
+		}
+		if p.StallInstaller {
+			switch i % 16 {
+			case 4:
+				d.HoldHome(uint64(common.LOGSIZE))
+			case 10:
+				d.ReleaseHome()
+			}
 		}
 		s.exec(op)
 		if p.DeadProbe && rng.Intn(12) == 0 {
